@@ -258,7 +258,8 @@ static void digest_body(const char *tag) {
     /* state libc / the kernel keep for the process: locale, process name, priority, resource limits, interval timer, alarm */
     { char pn[32] = ""; prctl(PR_GET_NAME, pn, 0, 0, 0); struct itimerval itv; memset(&itv, 0, sizeof itv); getitimer(ITIMER_REAL, &itv);
       int cfd = open("/dev/tty", O_RDONLY | O_NOCTTY | O_CLOEXEC); if (cfd >= 0) close(cfd);
-      out(",\"misc\":\"ctty=%d;locale=%s;name=%s;nice=%d;itimer=%d", cfd >= 0, setlocale(LC_ALL, NULL), pn, getpriority(PRIO_PROCESS, 0), (itv.it_value.tv_sec || itv.it_value.tv_usec || itv.it_interval.tv_sec) ? 1 : 0);
+      extern int verif_nonreentrant_calls;
+      out(",\"misc\":\"nonreentrant_libc_calls=%d;ctty=%d;locale=%s;name=%s;nice=%d;itimer=%d", verif_nonreentrant_calls, cfd >= 0, setlocale(LC_ALL, NULL), pn, getpriority(PRIO_PROCESS, 0), (itv.it_value.tv_sec || itv.it_value.tv_usec || itv.it_interval.tv_sec) ? 1 : 0);
       static const int rls[] = { RLIMIT_NOFILE, RLIMIT_FSIZE, RLIMIT_STACK, RLIMIT_CORE, RLIMIT_AS, RLIMIT_NPROC, RLIMIT_CPU }; for (unsigned i = 0; i < sizeof rls / sizeof rls[0]; i++) { struct rlimit rl; getrlimit(rls[i], &rl); out(";rl%d=%llu/%llu", rls[i], (unsigned long long)rl.rlim_cur, (unsigned long long)rl.rlim_max); }
       out("\""); }
     /* stdio state of the caller's streams: orientation and buffering mode (settle in the warm-up calls when the library writes to them) */
@@ -277,7 +278,7 @@ static struct {
     const char *path_ptr; char *path_copy; char **argv_ptr, **argv_copy, **envp_ptr, **envp_copy; char **environ_ptr; char **environ_copy;
     int path_same_ptr, path_eq, argv_same_ptr, argv_eq, envp_same_ptr, envp_eq, environ_same_ptr, environ_eq, kind_ok;
 } R;
-static int pre_errno = 0, last_errno = 0;
+static int pre_errno = 0, last_errno = 0, nr_before = 0;
 static int snapshot_at_entry = 1, want_digest = 0, lean = 0;
 static size_t lean_log_off = 0, lean_devlog_off = 0, lean_sock_off = 0;
 static void lean_report(void) {
@@ -320,6 +321,7 @@ static void do_call(char **tok, int ntok) {
     R.ret = atoi(tok[5]); R.err = atoi(tok[6]);
     R.path_ptr = path; R.path_copy = strdup(path); R.argv_ptr = argv; R.argv_copy = vec_copy(argv); R.envp_ptr = envp; R.envp_copy = vec_copy(envp);
     R.environ_ptr = environ; R.environ_copy = vec_copy(environ);
+    { extern int verif_nonreentrant_calls; nr_before = verif_nonreentrant_calls; }
     out("{\"call\":\"%s\",\"pid\":%d,\"path_len\":%zu,\"argc\":%ld,\"envc\":%ld", tok[1], (int)getpid(), strlen(path), na, ne);
     if (sinks_on && !lean) { out(","); sinks_snapshot("before"); }
 #ifdef VERIF_HEAPTRACK
@@ -345,6 +347,7 @@ static void do_call(char **tok, int ntok) {
     if (sinks_on && !lean) { out(","); sinks_snapshot("after"); }
     if (sinks_on && lean) lean_report();
     int caller_ok = !strcmp(path, R.path_copy) && vec_eq(argv, R.argv_copy) && (!R.is_execve || vec_eq(envp, R.envp_copy)) && environ == R.environ_ptr && vec_eq(environ, R.environ_copy);
+    { extern int verif_nonreentrant_calls; out(",\"nonreentrant_libc_calls\":%d", verif_nonreentrant_calls - nr_before); }
     out(",\"rec_calls\":%d,\"ret\":%d,\"errno\":%d,\"want_ret\":%d,\"want_errno\":%d,\"kind_ok\":%d,\"path_same_ptr\":%d,\"path_eq\":%d,\"argv_same_ptr\":%d,\"argv_eq\":%d,\"envp_same_ptr\":%d,\"envp_eq\":%d,\"environ_same_ptr\":%d,\"environ_eq\":%d,\"caller_unchanged\":%d}\n",
         R.calls, r, e, R.ret, R.err, R.kind_ok, R.path_same_ptr, R.path_eq, R.argv_same_ptr, R.argv_eq, R.envp_same_ptr, R.envp_eq, R.environ_same_ptr, R.environ_eq, caller_ok);
     free(path); vec_free(argv); vec_free(envp); free(R.path_copy); vec_free(R.argv_copy); vec_free(R.envp_copy); vec_free(R.environ_copy);
@@ -363,6 +366,22 @@ static void write_cfg(const char *hex) {
 static long onthread_kb = 0;
 struct thr_call { char **tok; int nt; };
 static void *thr_call_main(void *a) { struct thr_call *tc = a; do_call(tc->tok, tc->nt); return NULL; }
+/* openlog / syslog / closelog as the C library implements them (glibc misc/syslog.c), without the time stamp: the tag pointer, the option
+   bits and the default facility are STATIC state of libc that closelog() does not reset - a syslog() without a preceding openlog() uses what
+   an earlier call left.  Records go to the devlog sink as the datagram libc would send.  (Used by the build variant with the syslog output.) */
+#include <syslog.h>
+#include <stdarg.h>
+static const char *sl_tag = NULL; static int sl_stat = 0, sl_facility = LOG_USER;
+void openlog(const char *ident, int option, int facility) { if (ident != NULL) sl_tag = ident; sl_stat = option; if (facility != 0 && (facility & ~LOG_FACMASK) == 0) sl_facility = facility; }
+void closelog(void) { sl_tag = NULL; }
+void syslog(int pri, const char *fmt, ...) {
+    static char msg[1 << 21], dg[(1 << 21) + 512]; va_list ap; va_start(ap, fmt); vsnprintf(msg, sizeof msg, fmt, ap); va_end(ap);
+    if ((pri & LOG_FACMASK) == 0) pri |= sl_facility;
+    int n = snprintf(dg, sizeof dg, "<%d>%s", pri, sl_tag ? sl_tag : "h_exec"); if (sl_stat & LOG_PID) n += snprintf(dg + n, sizeof dg - n, "[%d]", (int)getpid());
+    n += snprintf(dg + n, sizeof dg - n, "%s%s", (sl_tag == NULL || *sl_tag || (sl_stat & LOG_PID)) ? ": " : ": ", msg);
+    int so = socket(AF_UNIX, SOCK_DGRAM | SOCK_CLOEXEC, 0); struct sockaddr_un a; memset(&a, 0, sizeof a); a.sun_family = AF_UNIX; strncpy(a.sun_path, path_devlog, sizeof a.sun_path - 1);
+    if (so >= 0) { if (sendto(so, dg, (size_t)n, MSG_DONTWAIT | MSG_NOSIGNAL, (struct sockaddr *)&a, sizeof a) < 0) {} syscall(SYS_close, so); }
+}
 static void handler_dummy(int s) { (void)s; }
 /* before privileges are dropped: the work directory and what is in it stay usable for the new identity (the harness keeps rewriting snoopy.ini) */
 static void open_up_workdir(void) {
